@@ -150,4 +150,61 @@ def optimize (cpKid : Tok → Nat) (d : CDD) : CDD :=
 def renderPkg (d : CDD) (key : Tok) (m : Nat → Bool) (pre : List Tok) : TSet :=
   render m (getList d key) (pre.foldl sAdd [])
 
+/-! ### the token-line level: `package_use_splitter` (`src/pkgcore/ebuild/domain.py`) and `domain.pkg_use`
+
+A user `package.use` line is `<query> tok …` after `str.split()`; the model works on the tokens behind the query.
+`package_use_splitter.f` is a generator over an iterator with a nested loop: the outer loop is `plainLoop` (its state
+`tokens[start_idx:idx]` is the list `pre`), the inner one `secLoop` (`use_expand`, `buffer`).  `ParseError` (the line is
+logged and skipped) is `none`; `eapi_obj.is_valid_use_flag` is the parameter `valid`; `str.lower` is `Char.toLower`
+(ASCII).  `domain.pkg_use` then stores `split_negations(stable_unique(tokens))` as one chunk. -/
+
+def dashStar : Tok := ['-', '*']
+
+/-- `flag.endswith(":")` -/
+def isSection (t : Tok) : Bool := t.getLast? == some ':'
+
+/-- `flag.lower()[:-1]` -/
+def sectionName (t : Tok) : Tok := (t.map Char.toLower).dropLast
+
+/-- `flag.lstrip("-")` -/
+def lstripDash (t : Tok) : Tok := t.dropWhile (· == '-')
+
+/-- a value `v` / `-v` of the section `NAME:` in long form: `name_v` / `-name_v` (for `-*` this is `-name_*`) -/
+def expandTok (ue t : Tok) : Tok :=
+  if t.head? = some '-' then '-' :: (ue ++ '_' :: t.tail) else ue ++ '_' :: t
+
+/-- the inner `for flag in i` loop, entered at the first `NAME:` token; `buf` is `buffer` -/
+def secLoop (valid : Tok → Bool) : List Tok → Tok → List Tok → Option (List Tok)
+  | [], _, buf => some buf                                               -- `yield from buffer; return`
+  | t :: ts, ue, buf =>
+    if isSection t then (secLoop valid ts (sectionName t) []).map (buf ++ ·)      -- `yield from buffer; buffer.clear()`
+    else if t = dashStar then (secLoop valid ts ue []).map (expandTok ue t :: ·)  -- `buffer.clear(); yield f"-{use_expand}_*"`
+    else
+      let f := expandTok ue t
+      if valid (lstripDash f) then secLoop valid ts ue (buf ++ [f]) else none
+
+/-- the outer `for idx, flag in enumerate(i)` loop; `pre` is `tokens[start_idx:idx]` -/
+def plainLoop (valid : Tok → Bool) : List Tok → List Tok → Option (List Tok)
+  | [], pre => some pre                                                  -- `yield from tokens[start_idx:]`
+  | t :: ts, pre =>
+    if t = dashStar then plainLoop valid ts [t]                          -- `start_idx = idx`
+    else if isSection t then (secLoop valid ts (sectionName t) []).map (pre ++ ·)   -- `yield from tokens[start_idx:idx]`
+    else if valid (lstripDash t) then plainLoop valid ts (pre ++ [t]) else none
+
+/-- `tuple(f(flags))` of `package_use_splitter`: the long form of a line's tokens, `none` = `ParseError` -/
+def splitUse (valid : Tok → Bool) (toks : List Tok) : Option (List Tok) := plainLoop valid toks []
+
+/-- snakeoil `stable_unique`: first occurrences, in order (`seen` = what has been yielded) -/
+def stableUniqueAux : List Tok → List Tok → List Tok
+  | [], _ => []
+  | t :: ts, seen => if seen.contains t then stableUniqueAux ts seen else t :: stableUniqueAux ts (t :: seen)
+
+def stableUnique (toks : List Tok) : List Tok := stableUniqueAux toks []
+
+/-- `chunked_data(key, *split_negations(stable_unique(tokens)))` as `domain.pkg_use` / `enabled_use` build it
+(a bare `-` never gets here: `is_valid_use_flag("")` is false) -/
+def lineChunk (kid : Nat) (simple : Bool) (toks : List Tok) : Chunk :=
+  let u := stableUnique toks
+  ⟨kid, simple, (u.filter fun t => t.head? == some '-').map List.tail, u.filter fun t => t.head? != some '-'⟩
+
 end Pkgcore.C11
